@@ -88,8 +88,12 @@ func scribble(t *types.V2Transaction) {
 	}
 	for i := range t.FileContractResolutions {
 		each(&t.FileContractResolutions[i].Parent.StateElement)
-		if sp, ok := t.FileContractResolutions[i].Resolution.(*types.V2StorageProof); ok {
-			each(&sp.ProofIndex.StateElement)
+		switch r := t.FileContractResolutions[i].Resolution.(type) {
+		case *types.V2StorageProof:
+			each(&r.ProofIndex.StateElement)
+			r.Leaf[0] ^= 0xFF
+		case *types.V2FileContractRenewal:
+			r.NewContract.Filesize++
 		}
 	}
 	for i := range t.SiacoinOutputs {
@@ -98,6 +102,73 @@ func scribble(t *types.V2Transaction) {
 	for i := range t.ArbitraryData {
 		t.ArbitraryData[i] ^= 0xFF
 	}
+}
+
+// mutateCaller writes one byte (or one field) into every kind of memory reachable from a
+// transaction the caller owns; returns the number of places written.
+func mutateCaller(t *types.V2Transaction) (n int) {
+	proof := func(se *types.StateElement) {
+		if len(se.MerkleProof) > 0 {
+			se.MerkleProof[0][0] ^= 0xFF
+			n++
+		}
+	}
+	for i := range t.SiacoinInputs {
+		proof(&t.SiacoinInputs[i].Parent.StateElement)
+		sp := &t.SiacoinInputs[i].SatisfiedPolicy
+		if len(sp.Signatures) > 0 {
+			sp.Signatures[0][0] ^= 0xFF
+			n++
+		}
+		if len(sp.Preimages) > 0 {
+			sp.Preimages[0][0] ^= 0xFF
+			n++
+		}
+	}
+	for i := range t.SiafundInputs {
+		proof(&t.SiafundInputs[i].Parent.StateElement)
+		sp := &t.SiafundInputs[i].SatisfiedPolicy
+		if len(sp.Signatures) > 0 {
+			sp.Signatures[0][0] ^= 0xFF
+			n++
+		}
+	}
+	if len(t.SiacoinOutputs) > 0 {
+		t.SiacoinOutputs[0].Address[0] ^= 0xFF
+		n++
+	}
+	if len(t.SiafundOutputs) > 0 {
+		t.SiafundOutputs[0].Address[0] ^= 0xFF
+		n++
+	}
+	if len(t.FileContracts) > 0 {
+		t.FileContracts[0].Filesize++
+		n++
+	}
+	for i := range t.FileContractRevisions {
+		proof(&t.FileContractRevisions[i].Parent.StateElement)
+	}
+	for i := range t.FileContractResolutions {
+		proof(&t.FileContractResolutions[i].Parent.StateElement)
+		switch r := t.FileContractResolutions[i].Resolution.(type) {
+		case *types.V2FileContractRenewal:
+			r.NewContract.Filesize++
+			n++
+		case *types.V2StorageProof:
+			proof(&r.ProofIndex.StateElement)
+			r.Leaf[0] ^= 0xFF
+			n++
+		}
+	}
+	if len(t.Attestations) > 0 {
+		t.Attestations[0].Signature[0] ^= 0xFF
+		n++
+	}
+	if len(t.ArbitraryData) > 0 {
+		t.ArbitraryData[0] ^= 0xFF
+		n++
+	}
+	return
 }
 
 type held struct {
@@ -118,6 +189,9 @@ func runCase(cs poolsim.Case) (coqOut string, failOut *failure, stOut stats, rOu
 		// generator's own invariants fail: that is a failure of the property, with this history as replay
 		if p := recover(); p != nil {
 			coqOut, failOut = "", &failure{"c14-state-corrupted", fmt.Sprint("the history broke an invariant of the harness (memory shared with the pool was modified?): ", p)}
+			if fail != nil {
+				failOut = fail // the monitor that fired first names the violation
+			}
 			if stOut == nil {
 				stOut = stats{}
 			}
@@ -346,7 +420,6 @@ func runCase(cs poolsim.Case) (coqOut string, failOut *failure, stOut stats, rOu
 			if !sameSnap(snap, snapV2(s.V2s)) {
 				report("c14-caller-memory-modified", fmt.Sprintf("AddV2PoolTransactions modified the caller's transactions (%s set)", s.Flavor))
 			}
-			helds = append(helds, held{s.V2s, snap, s.Flavor})
 		}
 		a1, a2 := r.Pool()
 		after1, after2 := ids(a1), ids2(a2)
@@ -384,6 +457,56 @@ func runCase(cs poolsim.Case) (coqOut string, failOut *failure, stOut stats, rOu
 		}
 		if expect >= 0 && expect != verdict {
 			report("c14-verdict-wrong", fmt.Sprintf("%s set of %d members: expected verdict %d (0 added, 1 known, 2 error) from validation by core, got %d (%v)", s.Flavor, len(setIDs), expect, verdict, err))
+		}
+		if s.V2 && fail == nil {
+			// the caller goes on using its transactions: write one byte into every kind of memory
+			// reachable from them, then observe the pool again (tip basis and stale basis alike)
+			var e1, e2 [][]byte
+			for _, x := range a1 {
+				e1 = append(e1, poolsim.EncV1(x))
+			}
+			for _, x := range a2 {
+				e2 = append(e2, poolsim.EncV2(x))
+			}
+			touched := 0
+			for i := range s.V2s {
+				touched += mutateCaller(&s.V2s[i])
+			}
+			st["caller-bytes-written-after-submission"] += touched
+			if s.Basis == tipIdx {
+				st["caller-mutations:tip-basis"]++
+			} else {
+				st["caller-mutations:stale-basis"]++
+			}
+			m1, m2 := r.Pool()
+			same := len(m1) == len(e1) && len(m2) == len(e2)
+			for i := 0; same && i < len(m1); i++ {
+				same = bytes.Equal(poolsim.EncV1(m1[i]), e1[i])
+			}
+			for i := 0; same && i < len(m2); i++ {
+				same = bytes.Equal(poolsim.EncV2(m2[i]), e2[i])
+			}
+			if !same {
+				report("c14-caller-memory-retained", fmt.Sprintf("after a %s set was submitted (verdict %d, basis is tip: %v) the caller wrote into its own transactions and the pool's contents changed: the pool kept the caller's memory", s.Flavor, verdict, s.Basis == tipIdx))
+			}
+			if fail == nil && verdict == 0 {
+				for _, id := range news {
+					func() {
+						defer func() {
+							if p := recover(); p != nil {
+								report("c14-lookup-panic", fmt.Sprint("V2PoolTransaction panicked after the caller modified its copy: ", p))
+							}
+						}()
+						if tx, ok := r.CM.V2PoolTransaction(id); !ok || tx.ID() != id {
+							report("c14-caller-memory-retained", fmt.Sprintf("after the caller wrote into its own copy of an accepted %s set, V2PoolTransaction(<original id>) no longer finds the transaction", s.Flavor))
+						}
+					}()
+				}
+				if _, verr := w.ValidatePool(r.Tip, m1, m2); verr != nil && fail == nil {
+					report("c14-caller-memory-retained", fmt.Sprintf("after the caller wrote into its own copy of an accepted %s set the reported pool no longer validates: %v", s.Flavor, verr))
+				}
+			}
+			helds = append(helds, held{s.V2s, snapV2(s.V2s), s.Flavor})
 		}
 		if verdict == 2 {
 			for _, id := range news {
